@@ -253,6 +253,16 @@ func originsOpt(v ssa.Value, keepMakeIface bool) []ssa.Value {
 						}
 					}
 				}
+				// a field of a local struct that extracted helpers update through a pointer
+				// (two locals bundled into `var span txidSpan; span.extend(info)`)
+				if fa, ok := x.X.(*ssa.FieldAddr); ok {
+					if more := localStructFieldValues(fa); more != nil {
+						for _, m := range more {
+							walk(m)
+						}
+						return
+					}
+				}
 				if cell := cellOf(x.X); cell != nil {
 					// flow-sensitive within the block: the nearest preceding store wins
 					if blk := x.Block(); blk != nil {
